@@ -96,11 +96,17 @@ def run_config(cfg, res):
   def dest(n):
     return (n[0], ports[n], n[1])
 
-  def fresh_router(live_in_order):
+  def fresh_router(live_in_order, rf=8, diverse=False):
+    ns.settings['REPLICATION_FACTOR'] = rf
+    ns.settings['DIVERSE_REPLICAS'] = diverse
     rt = DatapointRouter.plugins['consistent-hashing'](ns.settings)
+    ns.settings['REPLICATION_FACTOR'] = 8
+    ns.settings['DIVERSE_REPLICAS'] = False
     for n in live_in_order:
       rt.addDestination(dest(n))
     return rt
+
+  REPLICA_SETTINGS = [(1, True), (2, True), (3, True), (2, False)]
 
   def ref_sweep(ref):
     return [tuple(ref.lookup_pos(p)) for p in range(65536)]
@@ -142,8 +148,12 @@ def run_config(cfg, res):
     res.count('sweeps', 1)
     ops = []
     ok = True
+    # the same history applied to routers running with the replica settings a relay would use
+    shadows = {rs: fresh_router(nodes, *rs) for rs in REPLICA_SETTINGS}
     for idx in hist:
       x = nodes[idx]
+      for sh in shadows.values():
+        (sh.removeDestination if x in live else sh.addDestination)(dest(x))
       if x in live:
         rt.removeDestination(dest(x))
         ref.remove(x)
@@ -210,6 +220,19 @@ def run_config(cfg, res):
                         ops, nodes, ht, order, len(bad), bad[0], before[bad[0]], fresh[bad[0]], sorted(diff)[:6]),
                       dict(nodes=nodes, ops=ops, position=bad[0], follows_published=follows_published,
                            confined=confined, nclusters=len(clusters)), case=dict(hist=hist))
+      # the relay's own answer (REPLICATION_FACTOR / DIVERSE_REPLICAS applied) must be that of a freshly started relay too
+      if not bad:
+        for rs, sh in shadows.items():
+          frs = fresh_router(order, *rs)
+          for nm in names[:120]:
+            a, b = list(sh.getDestinations(nm)), list(frs.getDestinations(nm))
+            res.count('router_level_iii_evaluations')
+            if a != b:
+              res.violation('iii/router-level/rf%d-%s' % (rs[0], 'diverse' if rs[1] else 'plain'),
+                            'after history %r over %r (%s) the router (REPLICATION_FACTOR=%d, DIVERSE_REPLICAS=%s) sends %r to %r, a fresh '
+                            'relay with live nodes %r sends it to %r' % (ops, nodes, ht, rs[0], rs[1], nm, a, order, b),
+                            dict(nodes=nodes, ops=ops, name=nm, rf=rs[0], diverse=rs[1]), case=dict(hist=hist))
+              break
       # router level agreement on a sample of names (RF = all)
       for nm in names[:50]:
         a = list(rt.getDestinations(nm))
